@@ -647,6 +647,8 @@ def _own_failures(case):
             fails.append(Fail(f'{tn}/remaining-refs-differ/{label}', 'the references left are not the tail references'))
     if not fails and ok:
         # a second parse of the SAME cell object: same result, and parsing left the cell itself untouched
+        from harness.core import scramble
+        scramble(obj)                       # the first result is the caller's: every flag / number / byte string in it edited
         okb, objb = call(_lib(name), lc.begin_parse())
         if not okb:
             fails.append(Fail(f'{tn}/{label}/second-parse-of-the-same-cell/raises/{exc_sig(objb)}', repr(objb)))
